@@ -429,8 +429,8 @@ pub fn run(env: &mut Env) {
         v.into_iter()
     });
     env.exhaustive_parts.push(format!("C19: {} base files x (12 header counts x 8 values, every truncation point (sampled above 400 bytes in quick), 40 transition-type bytes x 4 values, 13 hostile rule strings in both rule positions)", bases.len()));
-    env.run_random::<Hostile>(if t { 5_000_000 } else { 300_000 });
-    env.run_random::<Raw>(if t { 1_000_000 } else { 50_000 });
+    env.run_random::<Hostile>(if t { 5_000_000 } else { 600_000 });
+    env.run_random::<Raw>(if t { 1_000_000 } else { 150_000 });
     // committed fuzz corpus / crash inputs
     let mut raws = Vec::new();
     for dir in ["/verif/corpus/fuzz/tzif", "/verif/regressions/C19/fuzz"] {
